@@ -125,6 +125,33 @@ def main():
                             rec["problems"].append("load via %s raised %s" % (name, repr(ex)[:100]))
                     for f in os.listdir(d):
                         if f.startswith(("c%d" % ci, "r%d" % ci)): os.unlink(os.path.join(d, f))
+            elif case["k"] == "custom":
+                # a compressor registered through the public register_compressor AFTER this process has already loaded files;
+                # its magic prefix is longer than every built-in one
+                from joblib.compressor import CompressorWrapper, BinaryZlibFile, register_compressor
+                PREFIX = b"VERIF-COMPRESSOR-" + case["name"].encode()
+
+                class PrefixedZlib(CompressorWrapper):
+                    def __init__(self): super().__init__(obj=BinaryZlibFile, prefix=PREFIX, extension="." + case["name"])
+                    def compressor_file(self, fileobj, compresslevel=None):
+                        fileobj.write(PREFIX); return BinaryZlibFile(fileobj, "wb", compresslevel=compresslevel or 3)
+                    def decompressor_file(self, fileobj):
+                        got = fileobj.read(len(PREFIX)); assert got == PREFIX, got
+                        return BinaryZlibFile(fileobj, "rb")
+                register_compressor(case["name"], PrefixedZlib(), force=True)
+                obj = eval(case["expr"], {"os": os})
+                path = os.path.join(d, "k%d.pkl" % ci)
+                with open(path, "wb") as fh: joblib.dump(obj, fh, compress=(case["name"], 3), protocol=case["protocol"])
+                data = open(path, "rb").read()
+                if not data.startswith(PREFIX): rec["problems"].append("custom compressor not used for the dump")
+                for name, fn in (("path", lambda: joblib.load(path)), ("fileobj", lambda: joblib.load(open(path, "rb"))), ("rawfile", lambda: joblib.load(open(path, "rb", buffering=0))),
+                                 ("bytesio", lambda: joblib.load(io.BytesIO(data)))):
+                    try:
+                        r = fn()
+                        if not (type(r) is type(obj) and r == obj): rec["problems"].append("custom compressor: load via %s returns another object" % name)
+                    except Exception as ex:
+                        rec["problems"].append("custom compressor (prefix of %d bytes): load via %s raised %s" % (len(PREFIX), name, repr(ex)[:100]))
+                os.unlink(path)
             elif case["k"] == "graph":
                 obj = build(case["graph"], case["kinds"], leaves)
                 arg = case["compress"]; arg = tuple(arg) if isinstance(arg, list) else arg
@@ -153,7 +180,9 @@ def main():
 
                     def fill(fh):
                         fh.write(header); joblib.dump(obj, fh, compress=arg, protocol=case["protocol"])
-                        if plain: joblib.dump(second, fh, compress=arg, protocol=case["protocol"])
+                        if plain:
+                            joblib.dump(second, fh, compress=arg, protocol=case["protocol"])
+                            joblib.dump(obj, fh, compress=arg, protocol=case["protocol"])      # (the last pickle of a file may be 4 bytes long)
                     targets = []
                     tf = tempfile.TemporaryFile(); fill(tf); targets.append(("buffered file", tf))
                     bio = io.BytesIO(); fill(bio); targets.append(("in-memory buffer", bio))
@@ -166,7 +195,9 @@ def main():
                             if not (type(r) is type(obj) and r == obj): rec["problems"].append("dump placed after %d bytes of a %s: load at that offset returns %r" % (len(header), tname, r if len(repr(r)) < 60 else type(r)))
                             elif plain:
                                 r2 = joblib.load(fh)
-                                if r2 != second: rec["problems"].append("second of two dumps in one %s: load returns %r" % (tname, r2 if len(repr(r2)) < 60 else type(r2)))
+                                if r2 != second: rec["problems"].append("second of three dumps in one %s: load returns %r" % (tname, r2 if len(repr(r2)) < 60 else type(r2)))
+                                r3 = joblib.load(fh)
+                                if not (type(r3) is type(obj) and r3 == obj): rec["problems"].append("last of three dumps in one %s: load returns %r" % (tname, r3 if len(repr(r3)) < 60 else type(r3)))
                         except Exception as ex:
                             rec["problems"].append("dump placed after %d bytes of a %s: load raised %s" % (len(header), tname, repr(ex)[:100]))
                         finally:
